@@ -44,9 +44,12 @@ def generate(tier, seed, work, stats):
             d = singles[j]
             cases.append(dict(prodsA=c["prods"], prodsB=d["prods"], vpoolA=c["vpool"], vpoolB=d["vpool"] if j != i else c["vpool"],
                               tpool="ab", same=(j == i), family="CFGGen-pairs", L=4))
+            if j != i and (i + j) % 7 == 0:
+                cases.append(dict(prodsA=c["prods"], prodsB=d["prods"], vpoolA="upper", vpoolB="other", tpool="ab",
+                                  same=False, family="CFGGen-pairs-disjoint-variables", L=4))
             if j != i and (i + j) % 5 == 0:
                 # the second operand's terminals are spelled like the first operand's variables
-                cases.append(dict(prodsA=c["prods"], prodsB=d["prods"], vpoolA="upper", vpoolB="subs_lo", tpool="ab", tpoolB="upperT",
+                cases.append(dict(prodsA=c["prods"], prodsB=d["prods"], vpoolA="upper", vpoolB="other", tpool="ab", tpoolB="upperT",
                                   same=False, family="CFGGen-pairs-terminal-like-variable", L=4))
     for k in range(1000 if tier == "quick" else 20000):
         a, b = c08.random_grammars(2, seed * 100003 + k, maxp=4, maxb=3)
